@@ -803,7 +803,7 @@ def run(ctx):
     global _MEMO_DIR
     _MEMO_DIR = common.scratch_dir("c08memo")
     if ctx.thorough:
-        plan = [("mid", 3, 4), ("full", 2, 3), ("core", 5, 6)]
+        plan = [("mid", 3, 4), ("full", 2, 3), ("core", 5, 5)]
         deadline = 720
     else:
         plan = [("quick", 3, 3)]
